@@ -168,8 +168,8 @@ def uGndSlab (F : Fns) (z dt charDim psi : Rat) : NV :=
   let ubf : Rat :=
     if B < charDim then (2 * LAMBDA_GND / (F.pi * charDim + B)) * F.ln (1 + F.pi * charDim / B)
     else LAMBDA_GND / (457 / 1000 * charDim + B)
-  { v := F.r2 (ubf + 2 * psi / charDim),
-    nf := charDim = 0 || (B < charDim && (B = 0 || F.pi * charDim + B = 0)) ||
+  { v := F.r2 (ubf + (if charDim > 0 then 2 * psi / charDim else 0)),
+    nf := (B < charDim && (B = 0 || F.pi * charDim + B = 0)) ||
           (¬ B < charDim && 457 / 1000 * charDim + B = 0) }
 
 /-- `u_value_gnd_wall` -/
